@@ -382,6 +382,13 @@ where
             .store()
             .subslice_utf8_offset(self.text())
             .expect("subslice should succeed");
+        if abscursor > self.textlen() {
+            //a position beyond this text selection is out of bounds even if the resource is longer
+            return Err(StamError::CursorOutOfBounds(
+                Cursor::BeginAligned(abscursor),
+                "utf8byte() on a text selection",
+            ));
+        }
         Ok(self.store().utf8byte(self.absolute_cursor(abscursor))? - beginbyte)
     }
 
@@ -393,6 +400,13 @@ where
             .store()
             .subslice_utf8_offset(self.text())
             .expect("subslice should succeed");
+        if bytecursor > self.text().len() {
+            //a byte position beyond this text selection is out of bounds even if the resource is longer
+            return Err(StamError::CursorOutOfBounds(
+                Cursor::BeginAligned(bytecursor),
+                "utf8byte_to_charpos() on a text selection (cursor is a utf-8 byte position)",
+            ));
+        }
         Ok(self
             .store()
             .utf8byte_to_charpos(beginbyte + bytecursor)?
@@ -573,6 +587,13 @@ where
             .store()
             .subslice_utf8_offset(self.text())
             .expect("subslice should succeed");
+        if abscursor > self.textlen() {
+            //a position beyond this text selection is out of bounds even if the resource is longer
+            return Err(StamError::CursorOutOfBounds(
+                Cursor::BeginAligned(abscursor),
+                "utf8byte() on a text selection",
+            ));
+        }
         Ok(self.store().utf8byte(self.absolute_cursor(abscursor))? - beginbyte)
     }
 
@@ -584,6 +605,13 @@ where
             .store()
             .subslice_utf8_offset(self.text())
             .expect("subslice should succeed");
+        if bytecursor > self.text().len() {
+            //a byte position beyond this text selection is out of bounds even if the resource is longer
+            return Err(StamError::CursorOutOfBounds(
+                Cursor::BeginAligned(bytecursor),
+                "utf8byte_to_charpos() on a text selection (cursor is a utf-8 byte position)",
+            ));
+        }
         Ok(self
             .store()
             .utf8byte_to_charpos(beginbyte + bytecursor)?
